@@ -975,6 +975,14 @@ func (c *Client) backwards(
 		verifiedHeader = interimHeader
 	}
 
+	// The headers linked above were fetched anew, the one at the target height
+	// included: the header we were asked about is verified only if it is that one.
+	if !bytes.Equal(verifiedHeader.Hash(), newHeader.Hash()) {
+		return ErrInvalidHeader{
+			fmt.Errorf("header #%d (%X) is not the header that the hash links from the trusted header #%d lead to (%X)",
+				newHeader.Height, newHeader.Hash(), trustedHeader.Height, verifiedHeader.Hash())}
+	}
+
 	return nil
 }
 
